@@ -12,8 +12,9 @@ static void meta_(colvar_grid_params *g, std::vector<int> const &nx, std::vector
   size_t nd = nx.size();
   g->lower_boundaries.resize(nd); g->upper_boundaries.resize(nd); g->widths.resize(nd);
   for (size_t i = 0; i < nd; i++) {
-    g->lower_boundaries[i] = colvarvalue(0.0); g->widths[i] = w[i];
-    g->upper_boundaries[i] = colvarvalue(nx[i] * w[i]);
+    double const lo = -1.25 - 0.5 * (double) i;       // (the same constants are in the Lean driver and in the oracle)
+    g->lower_boundaries[i] = colvarvalue(lo); g->widths[i] = w[i];
+    g->upper_boundaries[i] = colvarvalue(lo + nx[i] * w[i]);
   }
 }
 
@@ -51,6 +52,10 @@ bool ops_c16(Ctx &c, Toks const &t)
     std::vector<std::string> o; for (int v : IP->nx) o.push_back(itok(v));
     c.out("pnx", join(o));
     c.out("npts", itok((long long) IP->nt));
+    // where the surface's points sit: coordinate of the first and of the last point of every dimension
+    o.clear();
+    for (int i = 0; i < nd; i++) { o.push_back(ftok(IP->bin_to_value_scalar(0, i))); o.push_back(ftok(IP->bin_to_value_scalar(IP->nx[i] - 1, i))); }
+    c.out("pcoord", join(o));
     return true;
   }
   if (!IP) return true;
